@@ -257,6 +257,8 @@ PROPS["C11"]["tasks"] = PROPS["C11"]["tasks"] + ["SequentialRunner._collect_orde
 # round 9: the parameters of the built-in events come from their expanded settings (C14-C16 depend on json_extends and on where the runner calls it)
 for _p in ("C14", "C15", "C16"):
     PROPS[_p]["tasks"] = PROPS[_p]["tasks"] + [t for t in ("json_extends", "census:json_extends-call-sites") if t not in PROPS[_p]["tasks"]]
+# round 9: "no higher than the buyer's limit" speaks about the limit the buyer SUBMITTED; it reaches the book through the side-dependent rounding of `_add_order` (C01 depends on it)
+PROPS["C01"]["tasks"] = PROPS["C01"]["tasks"] + [t for t in ("Market._add_order",) if t not in PROPS["C01"]["tasks"]]
 from .census import CALLERS as _CALLERS
 for _g, (_ps, _r, _t) in _CALLERS.items():
     for _p in _ps:
